@@ -291,7 +291,18 @@ type dbWorld struct {
 	sk        *sink
 	d         *db.DB
 	callers   []db.Caller
+	long      bool // this history uses very long names (length limits, truncation, prefixes)
 }
+
+// long names: exactly 256 and 8192 bytes, the same with one more byte or one more path
+// component, and one whose 256th byte falls inside a two-byte character
+var (
+	long256  = strings.Repeat("k", 250) + "/alpha"
+	long8k   = strings.Repeat("tenant-0123456/", 546) + "ab"
+	longNames = []string{long256, long256, long256 + "x", long256 + "/signing-key", long8k, long8k + "y", long8k + "/z",
+		strings.Repeat("k", 255) + "é", strings.Repeat("k", 255), "a"}
+	longPats = []string{long256, long8k, long256, "*", "a", long256 + "x", "zz", strings.Repeat("k", 255)}
+)
 
 func newKEK() (tink.AEAD, error) {
 	h, err := keyset.NewHandle(aead.AES256GCMKeyTemplate())
@@ -319,6 +330,30 @@ func newDBWorld(root string, idx int, kek tink.AEAD) (*dbWorld, error) {
 }
 
 func (w *dbWorld) close() { os.RemoveAll(filepath.Dir(w.dir)) }
+
+// newTwin opens a second server on a copy of w's database file as it is now.  After a call
+// whose save failed, the file is the pre-call state; a server started from it is, by definition,
+// "the pre-call state served".  Whatever the two answer from then on must be the same.
+func newTwin(w *dbWorld, root string, idx int) *dbWorld {
+	dir := filepath.Join(root, fmt.Sprintf("h%d-twin", idx), "state")
+	os.RemoveAll(filepath.Dir(dir))
+	if err := os.MkdirAll(dir, 0700); err != nil {
+		return nil
+	}
+	t := &dbWorld{dir: dir, path: filepath.Join(dir, "setec.db"), kek: w.kek, callers: w.callers}
+	if bs, err := os.ReadFile(w.path); err == nil {
+		os.WriteFile(t.path, bs, 0600)
+	}
+	t.sk = &sink{dbPath: t.path, observer: true}
+	d, err := db.Open(t.path, w.kek, audit.New(t.sk))
+	if err != nil {
+		os.RemoveAll(filepath.Dir(dir))
+		return nil
+	}
+	t.sk.observer = false
+	t.d = d
+	return t
+}
 
 // exec runs one operation on the real DB with the requested faults injected and
 // returns the canonical result string.
@@ -371,11 +406,17 @@ func (w *dbWorld) exec(op dbOp) (res string) {
 		if err != nil {
 			return classify(err)
 		}
+		if in == nil {
+			return "BADRES:" + hx("nil info and nil error")
+		}
 		return fmt.Sprintf("info:%s:%s:%d", hx(in.Name), vlist(in.Versions), in.ActiveVersion)
 	case "get":
 		sv, err := w.d.Get(c, op.name)
 		if err != nil {
 			return classify(err)
+		}
+		if sv == nil {
+			return "BADRES:" + hx("nil value and nil error")
 		}
 		return fmt.Sprintf("value:%s:%d", hb(sv.Value), sv.Version)
 	case "getcond":
@@ -383,11 +424,17 @@ func (w *dbWorld) exec(op dbOp) (res string) {
 		if err != nil {
 			return classify(err)
 		}
+		if sv == nil {
+			return "BADRES:" + hx("nil value and nil error")
+		}
 		return fmt.Sprintf("value:%s:%d", hb(sv.Value), sv.Version)
 	case "getver":
 		sv, err := w.d.GetVersion(c, op.name, v)
 		if err != nil {
 			return classify(err)
+		}
+		if sv == nil {
+			return "BADRES:" + hx("nil value and nil error")
 		}
 		return fmt.Sprintf("value:%s:%d", hb(sv.Value), sv.Version)
 	case "put":
@@ -464,13 +511,17 @@ var dbNames = []string{"a", "b", "dev/x", "_internal/k", "", "a\nb", "é/π", "_
 var dbActs = []string{"get", "info", "put", "activate", "delete", "bogus"}
 var dbPats = []string{"*", "a", "b", "dev/*", "*x", "a*", "", "_internal/*", "zz", "*/*", "a*a", "dev/*/x", "*b*"}
 
-func genCallers(r *rand.Rand, profile string) []db.Caller {
+func genCallers(r *rand.Rand, profile string, long bool) []db.Caller {
 	cs := []db.Caller{superuser()}
 	if profile == "seq" || profile == "persist" {
 		return cs
 	}
+	pats := dbPats
+	if long {
+		pats = longPats
+	}
 	for i := 1; i <= 3; i++ {
-		cs = append(cs, db.Caller{Principal: principal(i), Permissions: genRules(r, dbActs, dbPats)})
+		cs = append(cs, db.Caller{Principal: principal(i), Permissions: genRules(r, dbActs, pats)})
 	}
 	// one caller with everything except one action on everything
 	drop := r.Intn(len(allActs))
@@ -504,6 +555,9 @@ func (w *dbWorld) genOp(r *rand.Rand, sh *shadow, profile string) dbOp {
 	// reserved-prefix names whose remainder is an ordinary secret's name: acting on the one must
 	// never touch the other
 	nameW := []string{"a", "a", "a", "b", "b", "dev/x", "_internal/k", "", "a\nb", "é/π", "_internal/a", "_internal/b", "_internal/dev/x", "dev/../a", "dev//x", "a\n", " a", "a ", " ", "\ta"}
+	if w.long {
+		nameW = longNames
+	}
 	op.name = pick(r, nameW)
 	kinds := []string{"put", "put", "put", "put", "activate", "activate", "delver", "delver", "delete", "get", "getver", "getcond", "getcond", "info", "list"}
 	op.kind = pick(r, kinds)
@@ -546,6 +600,35 @@ func (w *dbWorld) genOp(r *rand.Rand, sh *shadow, profile string) dbOp {
 		}
 	default:
 		op.val = []byte(fmt.Sprintf("v%d\x00\xff\n", r.Intn(5)))
+	}
+	// aimed at the version counter: delete the newest version of a name while another one is
+	// active, and put (a value never seen) where the counter is ahead of every stored version
+	switch r.Intn(9) {
+	case 0:
+		var cands []string
+		for n, vs := range sh.vers {
+			if len(vs) >= 2 && vs[len(vs)-1] == sh.latest[n] && sh.active[n] != sh.latest[n] {
+				cands = append(cands, n)
+			}
+		}
+		sort.Strings(cands)
+		if len(cands) > 0 {
+			op.name = cands[r.Intn(len(cands))]
+			op.kind, op.ver = "delver", sh.latest[op.name]
+		}
+	case 1, 2:
+		var cands []string
+		for n, vs := range sh.vers {
+			if len(vs) >= 1 && vs[len(vs)-1] < sh.latest[n] {
+				cands = append(cands, n)
+			}
+		}
+		sort.Strings(cands)
+		if len(cands) > 0 {
+			op.name = cands[r.Intn(len(cands))]
+			op.kind = "put"
+			op.val = []byte(fmt.Sprintf("fresh-%d", r.Intn(1<<30)))
+		}
 	}
 	switch profile {
 	case "audit":
@@ -645,13 +728,24 @@ func traceDB(o opts) error {
 		if err != nil {
 			return err
 		}
-		w.callers = genCallers(r, o.profile)
+		w.long = h%8 == 5
+		if h%4 == 2 {
+			// what an interrupted save of an earlier process, a backup tool or an editor may leave
+			// next to the database: long stray files under the obvious temporary names.  None of
+			// them is the database; none may ever show through.
+			junk := bytes.Repeat([]byte("{\"stale\":\"leftover of an interrupted save\"}\n"), 400)
+			for _, suffix := range []string{".tmp", ".new", ".bak", ".prev", "~", ".old", ".1"} {
+				os.WriteFile(w.path+suffix, junk, 0600)
+			}
+		}
+		w.callers = genCallers(r, o.profile, w.long)
 		emit("begin\t%d", h)
 		for i, c := range w.callers {
 			emit("caller\t%d\t%s\t%s", i, hx(canonPrincipal(c.Principal)), encRules(c.Permissions))
 		}
 		sh := &shadow{vers: map[string][]uint32{}, active: map[string]uint32{}, latest: map[string]uint32{}, gone: map[string][]uint32{}, last: map[string][]byte{}}
 		var retry *dbOp
+		var twin *dbWorld
 		for s := 0; s < o.steps; s++ {
 			op := w.genOp(r, sh, o.profile)
 			if retry != nil {
@@ -666,6 +760,18 @@ func traceDB(o opts) error {
 			writesBefore := w.sk.writes
 			w.sk.mu.Unlock()
 			res := w.exec(op)
+			twinRes := ""
+			if twin != nil {
+				if op.aok == 1 && op.sok {
+					twinRes = twin.exec(op)
+				} else {
+					twin.close()
+					twin = nil
+				}
+			}
+			if !op.sok && op.aok == 1 {
+				twin = newTwin(w, o.dir, h)
+			}
 			// at the moment the call returned: was the record it wrote (if any) covered by a completed Sync?
 			w.sk.mu.Lock()
 			syncedAtReturn := b01(op.aok != 1 || w.sk.writes == writesBefore || (w.sk.syncing == 0 && w.sk.synced >= w.sk.writes))
@@ -686,6 +792,9 @@ func traceDB(o opts) error {
 			}
 			line := fmt.Sprintf("step\tc=%d\top=%s\tn=%s\tv=%d\tval=%s\taok=%s\tsok=%s\tres=%s\tent=%s\tpre=%s\tmem=%s\tdisk=%s\tgen=%d\tsynced=%s",
 				op.caller, op.kind, hx(op.name), op.ver, hb(op.val), b01(op.aok == 1), b01(op.sok), res, ent, pre, mem, disk, w.d.WriteGen(), syncedAtReturn)
+			if twinRes != "" {
+				line += "\ttwin=" + twinRes
+			}
 			if o.profile == "persist" {
 				line += "\t" + w.reopenObs(kek)
 				if err == nil {
@@ -693,6 +802,24 @@ func traceDB(o opts) error {
 				}
 			}
 			emit("%s", line)
+			if op.aok == 1 && op.sok && retry == nil && r.Intn(10) == 0 {
+				// a clean stop and restart of the server between two calls: the same file and key,
+				// a new db.DB; the history goes on against it (numbers already issued stay issued,
+				// whatever the new process keeps in memory must be what the old one had)
+				w.sk.mu.Lock()
+				w.sk.observer = true
+				w.sk.mu.Unlock()
+				d2, err := db.Open(w.path, kek, audit.New(w.sk))
+				w.sk.mu.Lock()
+				w.sk.observer = false
+				w.sk.mu.Unlock()
+				if err != nil {
+					emit("restart\tok=0\terr=%s", hx(err.Error()))
+					break
+				}
+				w.d = d2
+				emit("restart\tok=1\tgen=%d\tmem=%s", w.d.WriteGen(), memState(w.d, w.sk))
+			}
 			if op.aok == 0 {
 				// encoding/json's Encoder keeps a write error forever: after one failed
 				// Write the audit.Writer rejects every later record without calling the
@@ -709,6 +836,9 @@ func traceDB(o opts) error {
 			}
 		}
 		w.close()
+		if twin != nil {
+			twin.close()
+		}
 	}
 	return nil
 }
